@@ -16,7 +16,7 @@ import (
 // LibArg is the argument of the library handlers.
 type LibArg struct {
 	Rid   string // request id (unique per frame)
-	Act   string // ret | err | panic-s | panic-e | panic-st | slow | badreply | bigreply
+	Act   string // ret | err | err-bycodetext | panic-s | panic-e | panic-st | slow | badreply | bigreply
 	Val   string
 	Code  int32
 	Msg   string
@@ -146,6 +146,15 @@ func LibDo(ctx erpc.CallCtx, a *LibArg) (interface{}, *erpc.Status) {
 		return &LibRes{Rid: a.Rid, Val: a.Val}, nil
 	case "badreply":
 		return make(chan int), nil
+	case "err-bycodetext":
+		// a handler that builds its status from a framework code with the public constructor
+		// and finishes it in place: the status it gets is its own
+		st := erpc.NewStatusByCodeText(a.Code, nil, false)
+		st.SetCause("detail from the handler: " + a.Val)
+		if a.Msg != "" {
+			st.SetMsg(a.Msg)
+		}
+		return nil, st
 	case "ret-okstatus":
 		// a handler may hand back an explicit status object that says OK
 		return &LibRes{Rid: a.Rid, Val: a.Val}, erpc.NewStatus(erpc.CodeOK, "", nil)
